@@ -153,3 +153,35 @@ pub fn check_rule_giga<F: Fn(&str) -> String>(p: Prof, r: RuleFn, tail: &str, re
     }
     st.count("out:giga-label");
 }
+
+/// *Diverse* strings: for every block of 64 code points, the string of all its characters that
+/// the class accepts (in code-point order - up to 64 DIFFERENT characters of one script), and
+/// its prefixes around 16 and 32 characters. Repetitive families never hold more than two
+/// distinct characters; a per-label memo, set or small table only fills up on these.
+pub fn block_staircases(env: &crate::env::Env, class: crate::subject::Class) -> Vec<String> {
+    use rayon::prelude::*;
+    let blocks: Vec<u32> = (0..0x110000u32 / 64).collect();
+    let mut out: Vec<String> = blocks
+        .par_iter()
+        .flat_map(|b| {
+            let chars: Vec<char> = (b * 64..b * 64 + 64)
+                .filter(|cp| crate::refmodel::derived_property(&env.u63, *cp, class).is_valid())
+                .filter_map(char::from_u32)
+                .collect();
+            let mut v = Vec::new();
+            if chars.len() >= 2 {
+                v.push(chars.iter().collect::<String>());
+                for n in [15usize, 16, 17, 18, 31, 32, 33] {
+                    if n < chars.len() {
+                        v.push(chars[..n].iter().collect::<String>());
+                        v.push(chars[chars.len() - n..].iter().collect::<String>());
+                    }
+                }
+            }
+            v
+        })
+        .collect();
+    out.sort();
+    out.dedup();
+    out
+}
